@@ -30,6 +30,7 @@ type Hist struct {
 	aws       *AwsSim
 	podL      *podListerSim
 	nodeL     *nodeListerSim
+	scripted  bool // a corpus scenario: no random extras beyond what the script says
 	mock      clock.Mock
 	api       []*WNode // API truth, in creation order
 	listed    []*WNode // what the node lister returns (may be stale), in lister order
@@ -86,7 +87,7 @@ func newHist(r *Rng, out io.Writer) *Hist {
 	h.k8s = newK8sSim(rec)
 	h.aws = newAwsSim(rec)
 	h.podL = &podListerSim{rec: rec}
-	h.nodeL = &nodeListerSim{}
+	h.nodeL = &nodeListerSim{rec: rec}
 	h.mock = clock.NewMock()
 	clock.Work = h.mock
 	return h
@@ -349,6 +350,20 @@ func (h *Hist) scan(faults map[int]bool, failDesc map[string]bool) (string, erro
 		h.rec.FailDesc[k] = v
 	}
 	h.rec.Conflict = conflict
+	// a refused GET may instead be a real 404: the node object vanished between the listing and the GET
+	h.rec.Vanish = !h.scripted && !conflict && h.tw == nil && len(faults) > 0 && h.r.chance(30)
+	// listing failures: the informer-backed lister of one group fails once (pods or nodes)
+	h.podL.failGroup, h.podL.failed = map[int]bool{}, map[int]bool{}
+	h.nodeL.failGroup, h.nodeL.failed = map[int]bool{}, map[int]bool{}
+	listFailGroup := -1
+	if !h.scripted && h.tw == nil && h.r.chance(6) {
+		listFailGroup = h.r.intn(len(h.cfgs))
+		if h.r.chance(50) {
+			h.podL.failGroup[listFailGroup] = true
+		} else {
+			h.nodeL.failGroup[listFailGroup] = true
+		}
+	}
 	h.rec.AwsCode = h.r.pick("", "Throttling", "Throttling", "RequestLimitExceeded", "ExpiredToken", "ValidationError", "ThrottlingException")
 	// informer caches hand out shared objects: the controller must treat them as read-only
 	snapNodes := make([]*v1.Node, len(h.nodeL.nodes))
@@ -431,6 +446,7 @@ func (h *Hist) scan(faults map[int]bool, failDesc map[string]bool) (string, erro
 	lists := []PObsList{}
 	if outcome == "ok" && h.ctl.Client != nil {
 		h.podL.quiet = true
+		h.nodeL.quiet = true
 		for _, c := range h.cfgs {
 			l, ok := h.ctl.Client.Listers[c.Name]
 			if !ok || l == nil {
@@ -453,6 +469,7 @@ func (h *Hist) scan(faults map[int]bool, failDesc map[string]bool) (string, erro
 			lists = append(lists, ol)
 		}
 		h.podL.quiet = false
+		h.nodeL.quiet = false
 	}
 	var twin interface{}
 	if h.tw != nil {
@@ -556,6 +573,11 @@ func (h *Hist) scan(faults map[int]bool, failDesc map[string]bool) (string, erro
 	line["lists"] = lists
 	line["mutated"] = mutated
 	line["cloud"] = cloud
+	listfail := []string{}
+	if listFailGroup >= 0 && (h.podL.failed[listFailGroup] || h.nodeL.failed[listFailGroup]) {
+		listfail = append(listfail, h.cfgs[listFailGroup].Name)
+	}
+	line["listfail"] = listfail
 	h.emit(line)
 	return outcome, nil
 }
